@@ -364,6 +364,20 @@ func violation(pid, path, why string) {
 	fmt.Fprintf(os.Stdout, "  reason: %s\n", why)
 }
 
+// crumb leaves the case that is about to run where the driver finds it if the
+// test process dies: a panic on a goroutine of the library that nothing
+// recovers kills the process, and with it the verdict. The driver turns such a
+// death into a violation and this file into its replay (DESIGN.md 2.7).
+var crumbPath = os.Getenv("VERIF_CRUMB")
+
+func crumb(pid, sub string, caseJSON []byte) {
+	if crumbPath == "" {
+		return
+	}
+	b, _ := json.Marshal(replayFile{Property: pid, Sub: sub, Failure: "the test process died while this case was running", Tag: "crash", Case: caseJSON})
+	os.WriteFile(crumbPath, b, 0o644)
+}
+
 // sub-check registration + generic runner ----------------------------------
 
 // subCheck binds a case type to its oracle.
@@ -394,6 +408,7 @@ func (s *subCheck[C]) eval(c C) Verdict {
 	if err != nil {
 		panic(err)
 	}
+	crumb(s.pid, s.sub, cj)
 	v := s.run(c)
 	if v.Inconclusive != "" {
 		st.mu.Lock()
